@@ -335,6 +335,13 @@ def _circle_by_interpretation(g):
                        'n positions, each to one of the len(alphabet)-1 other letters')
 def r3(ctx):
     f = ctx.fn(BARCODEPARSER, f'{CLS}.expand')
+    sem = _expand_by_interpretation(ctx, f)
+    if sem is not None and sem[0]:
+        # expand registered exactly the unique-nearest strings for every whitelist / k of the small scope, over all observed strings on ACGTN: the distances
+        # 0..k, the alphabet and the arguments of hamming_circle are what they have to be - however the candidate generation is written
+        ctx.emit('C03-R3', True, BARCODEPARSER, f, f'candidate generation of expand decided by interpretation ({sem[1]} cases): every distance 0..k and every letter of ACGTN is produced', key='candidates-by-interpretation')
+        _r3_circle(ctx)
+        return
     k = f.args.args[1].arg
     rng = [c for c in walk_no_nested(f) if isinstance(c, ast.Call) and dotted(c.func) == 'range']
     ok = len(rng) == 1 and ((len(rng[0].args) == 2 and src(rng[0].args[0]) == '0' and linform(rng[0].args[1]) == Lin({k: 1}, 1)) or
@@ -353,6 +360,10 @@ def r3(ctx):
         wl = [l_ for l_ in enc if l_ not in rl and isinstance(l_.target, ast.Name) and ('barcodes' in src(l_.iter))]
         okargs = bool(rl) and bool(wl) and src(hc[0].args[0]) == wl[0].target.id and src(hc[0].args[1]) == rl[-1].target.id
     ctx.emit('C03-R3', okargs, BARCODEPARSER, hc[0] if hc else f, 'hamming_circle is called with (whitelisted barcode, distance, alphabet)', key='circle-arguments', nontrivial=False)
+    _r3_circle(ctx)
+
+
+def _r3_circle(ctx):
     g = ctx.fn(BARCODEPARSER, 'hamming_circle')
     if len(g.args.args) < 3:
         raise AnalysisError('hamming_circle: expected (string, distance, alphabet)')
